@@ -39,6 +39,7 @@ extern "C" {
 #define INVALID_PARAMS -32602
 #define INTERNAL_ERROR -32603
 
+int add_item_to_object(cJSON *object, const char *key, cJSON *item);
 cJSON *create_success_response_from_request(const struct peer *p, const cJSON *request);
 cJSON *create_result_response(const struct peer *p, const cJSON *id, cJSON *result, const char *result_type);
 cJSON *create_result_response_from_request(const struct peer *p, const cJSON *request, cJSON *result, const char *result_type);
